@@ -154,6 +154,7 @@ class Selector1DGetitem(Contract):
     slicer, fetcher and length and reads nothing."""
     target = f"{M}:RangeSelector1D.__getitem__"
     props = ["C14"]
+    inline = True   # a coordinator contract (its clauses talk about its own recording slicer): callers execute the real body
 
     def configs(self, v):
         def mk(kind, keyfn=None):
